@@ -233,7 +233,7 @@ def build_simple(n, combo, out):
     return mkset(0, [], provs, vals, flds, binds), given, 2 * out
 
 
-def random_case(rng, maxk=9):
+def random_case(rng, maxk=9, arg_w=6):
     """Mostly-valid stream: an acyclic, complete, fully used program is generated first and one defect
     (or none) is then seeded; the defect kind is returned for the distribution report."""
     K = rng.randint(2, maxk)
@@ -261,7 +261,7 @@ def random_case(rng, maxk=9):
             return list(dict.fromkeys(dep() for _ in range(n)))
 
         kinds = ["func", "funcptr", "struct", "value", "arg"]
-        weights = [40, 8, 12, 8, 6]
+        weights = [40, 8, 12, 8, arg_w]
         if later:
             kinds += ["field", "fieldptr", "bind"]
             weights += [8, 5, 12]
